@@ -27,6 +27,8 @@ def dispatch (line : String) : String :=
     | "sched-err" => schedErrCmd rest
     | "sched-close" => schedCloseCmd rest
     | "sched-rec" => schedRecCmd rest
+    | "conc-coll" => concCollCmd rest
+    | "catcher" => catcherCmd rest
     | "views" => viewsCmd rest
     | "meta" => metaCmd rest
     | "hdr-rec" => hdrRec rest
